@@ -496,6 +496,10 @@ func vfC10BackgroundVariant(c *vfC10Case, ctx *vfCtx, st *PersistentHybridIndex,
 		st.Close()
 		return nil
 	}
+	// points that only exist when the store has that modality
+	if strings.HasSuffix(c.BgParkAt, ":vector") && conf.VecKind == "none" || strings.HasSuffix(c.BgParkAt, ":metadata") && !conf.HasMeta {
+		c.BgParkAt = "flush:written"
+	}
 	parked, release := make(chan struct{}), make(chan struct{})
 	var once sync.Once
 	vfInstallHook(func(name string, args ...any) {
